@@ -228,6 +228,148 @@ def _call_conditions(fnode):
     return out
 
 
+def _table_entry(C, name):
+    """Value expression of the class-level (any class of the MRO) or
+    module-level single assignment `name = <expr>`."""
+    scopes = [c.node.body for c in C.mro] + [C.module.tree.body]
+    for body in scopes:
+        hits = [st for st in body if isinstance(st, (ast.Assign, ast.AnnAssign))
+                and any(isinstance(t, ast.Name) and t.id == name for t in
+                        (st.targets if isinstance(st, ast.Assign) else [st.target]))]
+        if len(hits) == 1 and hits[0].value is not None:
+            return hits[0].value
+        if hits:
+            return None
+    return None
+
+
+def _record_fields(C, ctor):
+    """Field names of a namedtuple type bound at module level."""
+    if not isinstance(ctor, ast.Name):
+        return None
+    v = _table_entry(C, ctor.id)
+    if isinstance(v, ast.Call) and ast.unparse(v.func).split(".")[-1] == "namedtuple" \
+            and len(v.args) >= 2:
+        spec = v.args[1]
+        if isinstance(spec, (ast.List, ast.Tuple)) and all(
+                isinstance(e, ast.Constant) and isinstance(e.value, str)
+                for e in spec.elts):
+            return [e.value for e in spec.elts]
+        if isinstance(spec, ast.Constant) and isinstance(spec.value, str):
+            return spec.value.replace(",", " ").split()
+    return None
+
+
+def _select(C, value, key):
+    """Member `key` (field name, string key or position) of a static record:
+    dict literal, tuple, namedtuple construction; None when not static."""
+    if isinstance(value, ast.Dict):
+        for k, v in zip(value.keys, value.values):
+            if isinstance(k, ast.Constant) and k.value == key:
+                return v
+        return None
+    if isinstance(value, (ast.Tuple, ast.List)) and isinstance(key, int) and \
+            not isinstance(key, bool) and -len(value.elts) <= key < len(value.elts):
+        return value.elts[key]
+    if isinstance(value, ast.Call):
+        if ast.unparse(value.func) == "dict" and not value.args:
+            for k in value.keywords:
+                if k.arg == key:
+                    return k.value
+            return None
+        fields = _record_fields(C, value.func)
+        if fields is None:
+            return None
+        if isinstance(key, int) and not isinstance(key, bool):
+            key = fields[key] if -len(fields) <= key < len(fields) else None
+        if key not in fields:
+            return None
+        for k in value.keywords:
+            if k.arg == key:
+                return k.value
+        i = fields.index(key)
+        if i < len(value.args) and not any(isinstance(a, ast.Starred)
+                                           for a in value.args):
+            return value.args[i]
+    return None
+
+
+def _follow_tables(C, fnode, sn):
+    """Copy of a function in which calls through a statically known dispatch
+    table - `T[k].slot(...)`, `row = self.T[k]; row.slot(...)`, `row[i](...)` -
+    are replaced by calls of the function the slot names.  Slots that cannot
+    be resolved are left alone (the caller then finds no kernel call there)."""
+    import copy
+    from .idioms import single_defs
+    node = copy.deepcopy(fnode)
+    defs = single_defs(node)
+
+    def static(e, depth=0):
+        """expression -> static table value expression"""
+        if depth > 6:
+            return None
+        if isinstance(e, ast.Name):
+            if e.id in defs and isinstance(defs[e.id], ast.AST):
+                return static(defs[e.id], depth + 1)
+            return _table_entry(C, e.id)
+        if isinstance(e, ast.Attribute) and isinstance(e.value, ast.Name) and \
+                e.value.id in (sn, "cls", C.name, "type(%s)" % sn):
+            v = _table_entry(C, e.attr)
+            return v
+        if isinstance(e, ast.Attribute):
+            base = static(e.value, depth + 1)
+            return _select(C, base, e.attr) if base is not None else None
+        if isinstance(e, ast.Subscript) and isinstance(e.slice, ast.Constant):
+            base = static(e.value, depth + 1)
+            return _select(C, base, e.slice.value) if base is not None else None
+        if isinstance(e, (ast.Dict, ast.Tuple, ast.List, ast.Call)):
+            return e
+        return None
+    n_res = 0
+    for c in ast.walk(node):
+        if isinstance(c, ast.Call) and isinstance(c.func, (ast.Attribute, ast.Subscript)):
+            if isinstance(c.func, ast.Attribute) and isinstance(c.func.value, ast.Name) \
+                    and c.func.value.id == sn:
+                continue
+            try:
+                tgt = static(c.func)
+            except Exception:    # noqa: unreadable table: no resolution
+                tgt = None
+            if isinstance(tgt, ast.Name):
+                c.func = ast.copy_location(ast.Name(id=tgt.id, ctx=ast.Load()), c.func)
+                n_res += 1
+    return node, n_res
+
+
+def _dispatch_body(prog, C, f):
+    """The function whose if-tree chooses the kernel of histogram method f:
+    f itself, or - when f hands the choice to a private helper of its class -
+    that helper under the constant arguments of the call, with table slots
+    resolved."""
+    from .rules_c15 import _specialise
+    sn = f.params[0]
+    node, _ = _follow_tables(C, f.node, sn)
+    if _call_conditions(node):
+        return node, sn, None
+    for c in ast.walk(f.node):
+        if not (isinstance(c, ast.Call) and isinstance(c.func, ast.Attribute) and
+                isinstance(c.func.value, ast.Name) and c.func.value.id == sn):
+            continue
+        h = prog.lookup(C, c.func.attr)
+        if h is None or h.kind != "method" or h is f or h.cached:
+            continue
+        try:
+            sp = _specialise(h.node, c, lambda a: isinstance(a, ast.Constant))
+        except Exception:        # noqa
+            sp = None
+        if sp is None:
+            continue
+        hn, _ = _follow_tables(C, sp[0], h.params[0])
+        if _call_conditions(hn):
+            return hn, h.params[0], h
+    return node, sn, None
+
+
 def l1_python(run: Run, prog: Program, wr):
     rp = prog.classes.get("RecurrencePlot")
     if rp is None:
@@ -237,8 +379,8 @@ def l1_python(run: Run, prog: Program, wr):
         f = rp.methods.get(mname)
         if f is None:
             raise AnalysisError(f"RecurrencePlot.{mname} vanished")
-        sn = f.params[0]
-        for call, conds in _call_conditions(f.node):
+        body, sn, via = _dispatch_body(prog, rp, f)
+        for call, conds in _call_conditions(body):
             n += 1
             k = call.func.id
             ft = _features(k)
@@ -269,10 +411,11 @@ def l1_python(run: Run, prog: Program, wr):
                                f"{mv})")
             run.oblige("L1", f"{f.qualname}->{k}", not bad, sample={
                 "where": f"{f.module.relpath}:{call.lineno}",
+                "via": via.qualname if via else None,
                 "branch": [f"{'' if p else 'not '}({c})" for c, p in conds]})
             if bad:
                 run.add("L1", f"{f.qualname}/{k}", f"{f.module.relpath}:{call.lineno}",
-                        f"{f.qualname} calls {k} on the branch "
+                        f"{f.qualname} {'(through ' + via.qualname + ' and its dispatch table) ' if via else ''}calls {k} on the branch "
                         f"{[('' if p else 'not ') + c for c, p in conds]}: wrong "
                         f"{', '.join(bad)}")
     run.floor("python dispatch sites", n, 9)
